@@ -54,6 +54,11 @@ type Interp struct {
 	Flag  bool
 	// MaxSteps bounds one evaluation (0 = default)
 	MaxSteps int
+	// Packrat memoises rule results on (rule, offset). It yields the same verdict and derivation
+	// (evaluation is pure) but not the chronological observations (Eager, ErrTok, Revisits); it is
+	// used for the large shipped grammars, where naive evaluation is exponential.
+	Packrat bool
+	memo    map[visitKey]memoEntry
 
 	w      []rune
 	steps  int
@@ -61,6 +66,12 @@ type Interp struct {
 	visits map[visitKey]int
 	active map[visitKey]bool
 	text   string // most recently completed capture (eager view)
+}
+
+type memoEntry struct {
+	j     int
+	nodes []*Node
+	ok    bool
 }
 
 type visitKey struct {
@@ -88,6 +99,10 @@ func (in *Interp) Parse(entry string, input []rune) (res *Result) {
 	in.res = &Result{ErrTok: Tok{"Unknown", 0, 0}, Completed: map[Tok]bool{}}
 	in.visits = map[visitKey]int{}
 	in.active = map[visitKey]bool{}
+	in.memo = nil
+	if in.Packrat {
+		in.memo = map[visitKey]memoEntry{}
+	}
 	res = in.res
 	defer func() {
 		if r := recover(); r != nil {
@@ -186,6 +201,11 @@ func (in *Interp) eval(e *ag.Expr, i int) (int, []*Node, bool) {
 			panic(abort{"undefined:" + e.Name})
 		}
 		key := visitKey{e.Name, i}
+		if in.memo != nil {
+			if m, hit := in.memo[key]; hit {
+				return m.j, m.nodes, m.ok
+			}
+		}
 		if in.active[key] {
 			panic(abort{"ill-formed:left-recursion:" + e.Name})
 		}
@@ -194,11 +214,18 @@ func (in *Interp) eval(e *ag.Expr, i int) (int, []*Node, bool) {
 		j, kids, ok := in.eval(body, i)
 		delete(in.active, key)
 		if !ok {
+			if in.memo != nil {
+				in.memo[key] = memoEntry{i, nil, false}
+			}
 			return i, nil, false
 		}
 		t := Tok{e.Name, i, j}
 		in.completed(t)
-		return j, []*Node{{Tok: t, Kids: kids}}, true
+		out := []*Node{{Tok: t, Kids: kids}}
+		if in.memo != nil {
+			in.memo[key] = memoEntry{j, out, true}
+		}
+		return j, out, true
 	case ag.Seq:
 		j := i
 		var nodes []*Node
